@@ -6,6 +6,7 @@ import re
 
 _QUOTES = ["'", '"']
 _WHITES_REGEX = re.compile(" +")
+_VARIABLE_REGEX = re.compile(r"[?$](\w+)")
 
 _FOCUS_LOWER = "focus"
 _WILDCARD = "_"
@@ -123,6 +124,9 @@ class NodeSelectorParser(object):
                                   sgraph=self._sgraph)
 
     def _parse_variable_in_single_variable_query(self, string_query):
+        a_match = _VARIABLE_REGEX.search(string_query)
+        if a_match is not None:  # the name ends where the variable ends: "?s{", "?s<TAB>where", "?s<LF>where"
+            return a_match.group(1)
         index_first_char_var_name = string_query.find('?') + 1
         index_last_char_var_name = string_query[index_first_char_var_name:].find(" ") + index_first_char_var_name
         return string_query[index_first_char_var_name:index_last_char_var_name]
